@@ -1,6 +1,7 @@
 package main
 
 import (
+	"k8s.io/apimachinery/pkg/types"
 	"fmt"
 	"math/rand"
 	"time"
@@ -92,7 +93,8 @@ func mkPod(grp, name, node, cpu, mem string, opts ...podOpt) *v1.Pod {
 		req[v1.ResourceMemory] = resource.MustParse(mem)
 	}
 	p := &v1.Pod{
-		ObjectMeta: metav1.ObjectMeta{Name: name, Namespace: "ns"},
+		// the UID is a function of the name only: a pod whose requests change keeps it (in-place resize), and names repeat across cases
+		ObjectMeta: metav1.ObjectMeta{Name: name, Namespace: "ns", UID: types.UID("uid-" + name)},
 		Spec: v1.PodSpec{NodeName: node, NodeSelector: map[string]string{"grp": grp},
 			Containers: []v1.Container{{Name: "c", Resources: v1.ResourceRequirements{Requests: req}}}},
 		Status: v1.PodStatus{Phase: v1.PodRunning, Conditions: []v1.PodCondition{{Type: v1.PodScheduled, Status: v1.ConditionTrue}}},
